@@ -1283,11 +1283,14 @@ public:
 
         classifier_.build(samples.data(), sample_size, splitter_lcp_);
 
-        // create new jobs
-        pwork_ = parts_;
-        for (unsigned int p = 0; p < parts_; ++p)
+        // create new jobs. the last job may finish the whole step and delete
+        // this before enqueue() returns: do not read members in the loop.
+        const size_t parts = parts_;
+        Context& ctx = ctx_;
+        pwork_ = parts;
+        for (unsigned int p = 0; p < parts; ++p)
         {
-            ctx_.threads_.enqueue([this, p]() { count(p); });
+            ctx.threads_.enqueue([this, p]() { count(p); });
         }
     }
 
@@ -1343,11 +1346,14 @@ public:
         }
         assert(sum == strptr_.size());
 
-        // create new jobs
-        pwork_ = parts_;
-        for (unsigned int p = 0; p < parts_; ++p)
+        // create new jobs. the last job may finish the whole step and delete
+        // this before enqueue() returns: do not read members in the loop.
+        const size_t parts = parts_;
+        Context& ctx = ctx_;
+        pwork_ = parts;
+        for (unsigned int p = 0; p < parts; ++p)
         {
-            ctx_.threads_.enqueue([this, p]() { distribute(p); });
+            ctx.threads_.enqueue([this, p]() { distribute(p); });
         }
     }
 
